@@ -42,7 +42,14 @@ EXPLANATION = (
     "entry with period >= 1 and a frame table valid for tn (never the period-0 "
     "NONE entry, except for NONE itself). "
     "The firmware's channel number -> task mask function is executed for all "
-    "256 channel number octets and compared with a reference. The firmware trigger is brought to expression normal form "
+    "256 channel number octets and compared with a reference; the handler of "
+    "L1CTL_CCCH_MODE_REQ is executed (across l23_api.c and mframe_sched.c, the task "
+    "word as a bit vector over 0 / 1 / unchanged / unknown, so for every previous "
+    "content at once) for every CCCH mode and must leave enabled exactly the "
+    "CCCH / CBCH tasks that the reference map compares with the layout of the "
+    "mode's trxcon combination. A file-scope table the layout lookup reads and a "
+    "load-time constructor fills is state: the constructor is executed by the "
+    "evaluator and the lookup decided for the table before and after it. The firmware trigger is brought to expression normal form "
     "((fn + A) mod modulo == frame_nr mod modulo, set queued A - 1 frames "
     "ahead; any other comparison of the frame-number remainder with a value "
     "of the row is decided by evaluating it on every table row over one full "
@@ -69,6 +76,8 @@ ASSUMPTIONS = [
     "spec/chan_nr_tasks.json: which firmware task(s) implement the channel an RSL channel number octet denotes; bit i of the mask returned by chan_nr2mf_task_mask() runs task i (mframe_schedule() tests `tasks & (1 << i)`); the function is static and only called directly (checked), functions without a visible body do not change its locals",
     "l1sched_mframe_layout with state kept between calls: the state variables (static locals, static file-scope variables no other function of the translation unit mentions) are modified by this function only; any sequence of (config, tn) calls is possible",
     "execution of mframe_schedule_set: l1s.current_time is a consistent struct gsm_time (kept so by l1s_time_inc / gsm_fn2gsmtime): t2 == fn mod 26, t3 == fn mod 51, tc == (fn div 51) mod 8; t1 is not modelled",
+    "spec/ccch_mode_tasks.json: the trxcon channel combination that belongs to each CCCH mode of L1CTL_CCCH_MODE_REQ and the logical channels the request is responsible for; the request's mode is the member ccch_mode of struct l1ctl_ccch_mode_req read from the message payload; the word mframe_set() writes is the one mframe_schedule() runs the tasks from, bit i = task i; functions without a body in l23_api.c / mframe_sched.c and stores through pointers that do not point into the modelled global objects do not change that word; functions that (transitively, as far as visible) mention no object with static storage are not entered",
+    "l1sched_mframe_layout reading a static file-scope table that only load-time constructors (attribute constructor, referenced by no code) write: the constructors run at most once each, in definition order, before or between lookups; the lookup is decided for the initialiser contents and for the contents after every prefix of the constructors",
     "thorough tier: trxcon source files that clang cannot parse here are covered by an identifier scan of their comment-stripped text only (they must not mention `frames`, l1sched_configure_ts, l1sched_mframe_layout)",
 ]
 
@@ -306,10 +315,12 @@ def cwrap(tu, v, ty):
 
 
 def pure_callee(tu, call):
-    """(name, FunctionDecl, operand of its return statement) of a direct call of a function that is defined
-    in this translation unit (static inline helpers of headers included) and whose body is a single
-    `return <side-effect free expression>;` -- else AnalysisError.  The operand keeps the implicit
-    conversion to the function's return type."""
+    """(name, FunctionDecl, operand of its return statement, temporaries) of a direct call of a function
+    that is defined in this translation unit (static inline helpers of headers included) and whose body
+    is `return <side-effect free expression>;`, optionally preceded by declarations of non-static locals
+    with side-effect free initialisers (temporaries: {declaration id: initialiser}; nothing in such a
+    body can modify them, their address must not be taken) -- else AnalysisError.  The operands keep the
+    implicit conversions to the declared types."""
     callee = strip(kids(call)[0])
     rd = callee.get("referencedDecl", {}) if kind(callee) == "DeclRefExpr" else {}
     if rd.get("kind") != "FunctionDecl":
@@ -320,11 +331,26 @@ def pure_callee(tu, call):
         raise AnalysisError("evaluator: expression outside the vocabulary: %s (CallExpr, body of %s() not visible)" % (
             ctext(call)[:60], name))
     st = kids(tu.body(f))
-    if len(st) != 1 or kind(st[0]) != "ReturnStmt" or not kids(st[0]) or not pure(kids(st[0])[0], calls_ok=True):
-        raise AnalysisError("evaluator: %s() is not a single side-effect free return statement; outside the vocabulary" % name)
+    bad = AnalysisError("evaluator: %s() is not a single side-effect free return statement (after side-effect free "
+                        "temporaries); outside the vocabulary" % name)
+    if not st or kind(st[-1]) != "ReturnStmt" or not kids(st[-1]) or not pure(kids(st[-1])[0], calls_ok=True):
+        raise bad
+    binds = {}
+    for d in st[:-1]:
+        if kind(d) != "DeclStmt":
+            raise bad
+        for vd in kids(d):
+            init = [c for c in kids(vd) if "Comment" not in (kind(c) or "") and not (kind(c) or "").endswith("Attr")]
+            if kind(vd) != "VarDecl" or vd.get("storageClass") or len(init) != 1 or not pure(init[0], calls_ok=True) or \
+                    int_type(tu, vd.get("type")) is None:
+                raise bad
+            binds[vd["id"]] = init[0]
+    for x in walk(tu.body(f)):
+        if kind(x) == "UnaryOperator" and x.get("opcode") == "&" and Locals._ref(kids(x)[0]) in binds:
+            raise bad
     if len(call_args(call)) != len(tu.fparams(f)):
         raise AnalysisError("evaluator: call of %s() with %d arguments" % (name, len(call_args(call))))
-    return name, f, kids(st[0])[0]
+    return name, f, kids(st[-1])[0], binds
 
 
 def ceval(tu, n, leaf, depth=0):
@@ -349,13 +375,19 @@ def ceval(tu, n, leaf, depth=0):
     if kind(n) == "CallExpr":
         if depth > 3:
             raise AnalysisError("evaluator: helper calls nested too deeply in %s" % ctext(n)[:60])
-        name, f, ret = pure_callee(tu, n)
+        name, f, ret, binds = pure_callee(tu, n)
         pidx = {p["id"]: i for i, p in enumerate(tu.fparams(f))}
         args = call_args(n)
 
         def inner(x):
-            if kind(x) == "DeclRefExpr" and x.get("referencedDecl", {}).get("id") in pidx:
-                return ceval(tu, args[pidx[x["referencedDecl"]["id"]]], leaf, depth + 1)
+            if kind(x) == "DeclRefExpr":
+                i = x.get("referencedDecl", {}).get("id")
+                if i in pidx:
+                    return ceval(tu, args[pidx[i]], leaf, depth + 1)
+                if i in binds:
+                    # a temporary of the helper: its initialiser, converted to the declared type
+                    v = ceval(tu, binds[i], inner, depth + 1)
+                    return cwrap(tu, v, tu.by_id[i].get("type")) if isinstance(v, int) else v
             return leaf(x)
         return ceval(tu, ret, inner, depth + 1)
     if kind(n) == "DeclRefExpr":
@@ -453,6 +485,12 @@ def ceval(tu, n, leaf, depth=0):
 
 
 def truth(v):
+    if is_tern(v):
+        if v[2]:
+            return True
+        if v[1] == M64:
+            return False
+        raise AnalysisError("a condition depends on bits of the multiframe task word the execution model does not know")
     return bool(v) if not isinstance(v, tuple) else True
 
 
@@ -2218,10 +2256,10 @@ def r1_alloc_by_mask(L, T, tu):
                 elif kind(x) == "CallExpr":
                     # a single-return helper (evaluated on its body by ceval): the masks it reads belong
                     # to the layouts the caller passes for the corresponding parameters
-                    hname, hf, ret = pure_callee(tu, x)
+                    hname, hf, ret, hbinds = pure_callee(tu, x)
                     hp = {p["id"]: i for i, p in enumerate(tu.fparams(hf))}
                     via.append("%s() returning `%s`" % (hname, hf.get("type", {}).get("qualType", "?").split("(")[0].strip()))
-                    for y in walk(ret):
+                    for y in (y for e in [ret] + list(hbinds.values()) for y in walk(e)):
                         if kind(y) == "CallExpr":
                             raise AnalysisError("%s(): helper %s() calls further functions; unclassifiable" % (fname, hname))
                         if kind(y) == "MemberExpr" and y.get("name") == "lchan_mask":
@@ -2413,13 +2451,109 @@ class LayoutLookup:
             init = [c for c in kids(v) if "Comment" not in (kind(c) or "") and not (kind(c) or "").endswith("Attr")]
             self.state.append((v["id"], v.get("name")))
             self.state_init.append(ceval(tu, init[0], self.leaf({})) if init else 0)
+        self.n_own = len(self.state)
+        self.mem = {}
+        self.ext_arr = {}       # id -> (name, extent, element type) of the arrays among the external state
+        inits = self._find_external(stored)
         self.state_ids = {i for i, _ in self.state}
-        self.state_init = tuple(self.state_init)
+        self.state_inits = [tuple(self.state_init) + e for e in inits]
+        self.state_init = self.state_inits[0]
+
+    def _find_external(self, stored):
+        """File-scope variables the function only READS and that are not const: state somebody else sets
+        up.  Modelled when the variable is static (nothing outside this file can write it), an integer or
+        a one-dimensional integer array, and every other function that mentions it is a load-time
+        constructor nobody references (it runs once, before or between the lookups, and is a function of
+        the file's constants only).  The variable then joins the state variables; its possible contents
+        are the initialiser (constructor not run yet) and what each prefix of the constructors, executed
+        in definition order by the checker's evaluator, leaves behind.  -> list of content tuples."""
+        tu, f = self.tu, self.f
+        ext = []
+        for n in walk(tu.body(f)):
+            rd = n.get("referencedDecl", {}) if kind(n) == "DeclRefExpr" else {}
+            i = rd.get("id")
+            v = tu.by_id.get(i)
+            if rd.get("kind") != "VarDecl" or v is None or i in self.loc.decl or i in stored or v in ext or \
+                    v.get("name") == "layouts":
+                continue
+            qt = v.get("type", {}).get("qualType", "")
+            if re.search(r"\bconst\b", qt) and "*" not in qt:
+                continue
+            ext.append(v)
+        if not ext:
+            return [()]
+        ctors = []
+        content = {}
+        for v in ext:
+            name, qt = v.get("name"), v.get("type", {}).get("qualType", "")
+            if v.get("storageClass") != "static":
+                raise AnalysisError("l1sched_mframe_layout reads `%s`, which other translation units can modify; cannot "
+                                    "enumerate its values" % name)
+            m = re.match(r"^([^\[\]*]+?)\s*(?:\[(\d+)\])?$", qt)
+            ety = m.group(1).strip() if m else None
+            if m is None or int_type(tu, ety) is None:
+                raise AnalysisError("l1sched_mframe_layout reads `%s` of type `%s`; outside the evaluator's model" % (name, qt))
+            init = [c for c in kids(v) if "Comment" not in (kind(c) or "") and not (kind(c) or "").endswith("Attr")]
+            iv = tu.init_value(init[0]) if init else None
+            if m.group(2) is not None:
+                ext_n = int(m.group(2))
+                iv = [] if iv is None else iv
+                if not isinstance(iv, list) or len(iv) > ext_n or not all(isinstance(x, int) for x in iv):
+                    raise AnalysisError("l1sched_mframe_layout: initialiser of `%s` outside the evaluator's model" % name)
+                self.ext_arr[v["id"]] = (name, ext_n, ety)
+                content[v["id"]] = [cwrap(tu, x, ety) for x in iv] + [0] * (ext_n - len(iv))
+            else:
+                if iv is not None and not isinstance(iv, int):
+                    raise AnalysisError("l1sched_mframe_layout: initialiser of `%s` outside the evaluator's model" % name)
+                content[v["id"]] = cwrap(tu, iv or 0, ety)
+            for oname, of in body_funcs(tu):
+                if of is f or not any(kind(x) == "DeclRefExpr" and x.get("referencedDecl", {}).get("id") == v["id"]
+                                      for x in walk(tu.body(of))):
+                    continue
+                if not any(kind(c) == "ConstructorAttr" for c in kids(of)) or tu.fparams(of):
+                    raise AnalysisError("l1sched_mframe_layout reads `%s`, which %s() also uses (not a load-time constructor); "
+                                        "cannot enumerate its values" % (name, oname))
+                if (oname, of) not in ctors:
+                    ctors.append((oname, of))
+        for oname, of in ctors:
+            roots = [tu.body(x) for _, x in body_funcs(tu)] + [x for _, x in sorted(tu.vars.items())]
+            if any(kind(x) == "DeclRefExpr" and x.get("referencedDecl", {}).get("id") == of.get("id")
+                   for r in roots for x in walk(r)):
+                raise AnalysisError("the constructor %s() is also referenced by code; cannot enumerate the contents of the "
+                                    "tables it fills" % oname)
+        for v in ext:
+            self.state.append((v["id"], v.get("name")))
+        self.ctors = [n for n, _ in ctors]
+        self.state_ids = {i for i, _ in self.state}
+
+        def snap():
+            return tuple(tuple(content[v["id"]]) if v["id"] in self.ext_arr else content[v["id"]] for v in ext)
+        out = [snap()]
+        for oname, of in sorted(ctors, key=lambda c: tu.line(c[1]) or 0):
+            env = {}
+            for v in ext:
+                if v["id"] in self.ext_arr:
+                    self.mem[v["id"]] = content[v["id"]]
+                    env[v["id"]] = (("arr", v["id"]), 0)
+                else:
+                    env[v["id"]] = content[v["id"]]
+            try:
+                self._run(env, CCFG(tu, of), oname, void=True)
+            except EvalOOB as e:
+                raise AnalysisError("the constructor %s() accesses %s, outside the table" % (oname, e))
+            for v in ext:
+                if v["id"] not in self.ext_arr:
+                    content[v["id"]] = env[v["id"]]
+            if snap() not in out:
+                out.append(snap())
+        return out
 
     def show_state(self, st):
         out = []
         for (i, name), v in zip(self.state, st):
-            if isinstance(v, tuple) and v[0] == "elem":
+            if i in self.ext_arr:
+                out.append("%s = {%s}" % (name, ",".join(str(x) for x in v)))
+            elif isinstance(v, tuple) and v[0] == "elem":
                 out.append("%s = &layouts[%d]" % (name, v[1]))
             else:
                 out.append("%s = %s" % (name, "NULL" if v == 0 else v))
@@ -2445,9 +2579,23 @@ class LayoutLookup:
                         return ceval(self.tu, s[0], lf)
                     raise AnalysisError("l1sched_mframe_layout: local `%s` has no value in the model" % rd.get("name"))
                 return _NOTHING
+            if k == "UnaryOperator" and n.get("opcode") in ("++", "--"):
+                # side effect inside an expression (`i-- > 0`): ceval asks for every node once, in
+                # evaluation order
+                i = Locals._ref(kids(n)[0])
+                if i is None or not isinstance(env.get(i), int) or i in self.state_ids:
+                    raise AnalysisError("l1sched_mframe_layout: `%s` outside the evaluator's model" % ctext(n)[:40])
+                old = env[i]
+                env[i] = cwrap(self.tu, old + (1 if n.get("opcode") == "++" else -1), n.get("type"))
+                return old if n.get("isPostfix") else env[i]
             if k == "ArraySubscriptExpr":
                 b = ceval(self.tu, kids(n)[0], lf)
                 i = ceval(self.tu, kids(n)[1], lf)
+                if isinstance(b, tuple) and isinstance(b[0], tuple) and b[0][0] == "arr" and isinstance(i, int):
+                    name, ext_n, _ = self.ext_arr[b[0][1]]
+                    if not 0 <= b[1] + i < ext_n:
+                        raise EvalOOB("%s[%d]" % (name, b[1] + i))
+                    return self.mem[b[0][1]][b[1] + i]
                 if isinstance(b, tuple) and isinstance(i, int):
                     return (b[0], b[1] + i)
                 raise AnalysisError("l1sched_mframe_layout: subscript outside the model")
@@ -2472,18 +2620,24 @@ class LayoutLookup:
         state = self.state_init if state is None else state
         env = {self.pid[0]: cfg, self.pid[1]: tn}
         for (i, _), v in zip(self.state, state):
-            env[i] = v
+            if i in self.ext_arr:
+                self.mem[i] = list(v)
+                env[i] = (("arr", i), 0)
+            else:
+                env[i] = v
         self.after = state
         r = self._run(env)
-        self.after = tuple(env[i] for i, _ in self.state)
+        self.after = tuple(tuple(self.mem[i]) if i in self.ext_arr else env[i] for i, _ in self.state)
         return r
 
-    def _run(self, env):
-        g, tu = self.g, self.tu
+    def _run(self, env, g=None, fname="l1sched_mframe_layout", void=False):
+        g, tu = g or self.g, self.tu
         lf = self.leaf(env)
         node = g.entry
         for _ in range(20000):
             if node is g.exit:
+                if void:
+                    return None
                 raise AnalysisError("l1sched_mframe_layout can fall off its end")
             k = node.kind
             if k == "cond":
@@ -2509,14 +2663,29 @@ class LayoutLookup:
                             continue        # static: initialised once, before the first call
                         init = [c for c in kids(vd) if "Comment" not in (kind(c) or "") and not (kind(c) or "").endswith("Attr")]
                         env[vd["id"]] = ceval(tu, init[0], lf) if init else None
-                elif ak in ("BreakStmt", "ContinueStmt", "DoHead", "NullStmt"):
-                    pass
+                elif ak in ("BreakStmt", "ContinueStmt", "DoHead", "NullStmt") or not ak:
+                    pass        # (no kind: the absent increment of `for (...; ...; )`)
                 else:
                     e = strip(a)
                     ek = kind(e)
                     tgt = Locals._ref(kids(e)[0]) if kids(e) else None
-                    if ek == "BinaryOperator" and e.get("opcode") == "=" and (tgt in self.loc.decl or tgt in self.state_ids):
+                    if ek == "BinaryOperator" and e.get("opcode") == "=" and tgt is not None and \
+                            (tgt in self.loc.decl or tgt in self.state_ids or (void and isinstance(env.get(tgt, _NOTHING), int))):
                         env[tgt] = ceval(tu, kids(e)[1], lf)
+                    elif ek == "BinaryOperator" and e.get("opcode") == "=" and void and \
+                            kind(strip(kids(e)[0])) == "ArraySubscriptExpr":
+                        # a constructor fills a table of the external state
+                        a = strip(kids(e)[0])
+                        b, i = ceval(tu, kids(a)[0], lf), ceval(tu, kids(a)[1], lf)
+                        if not (isinstance(b, tuple) and isinstance(b[0], tuple) and b[0][0] == "arr" and isinstance(i, int)):
+                            raise AnalysisError("%s(): store to `%s`; outside the evaluator's model" % (fname, ctext(a)[:50]))
+                        name, ext_n, ety = self.ext_arr[b[0][1]]
+                        if not 0 <= b[1] + i < ext_n:
+                            raise EvalOOB("%s[%d]" % (name, b[1] + i))
+                        val = ceval(tu, kids(e)[1], lf)
+                        if not isinstance(val, int):
+                            raise AnalysisError("%s(): stores a non-integer to %s[]" % (fname, name))
+                        self.mem[b[0][1]][b[1] + i] = cwrap(tu, val, ety)
                     elif ek == "UnaryOperator" and e.get("opcode") in ("++", "--") and tgt in env and env[tgt] is not None:
                         d = 1 if e.get("opcode") == "++" else -1
                         v = env[tgt]
@@ -2529,7 +2698,7 @@ class LayoutLookup:
                     elif ek == "CallExpr" and "LOG" in ctext(kids(e)[0]).upper():
                         pass
                     else:
-                        raise AnalysisError("l1sched_mframe_layout: statement outside the evaluator's vocabulary: %s" % ctext(e)[:60])
+                        raise AnalysisError("%s: statement outside the evaluator's vocabulary: %s" % (fname, ctext(e)[:60]))
             if len(node.succ) != 1:
                 raise AnalysisError("l1sched_mframe_layout: CFG node with %d successors" % len(node.succ))
             node = node.succ[0][0]
@@ -2559,8 +2728,8 @@ def r2_lookup(L, T):
         return short_cfg(T.cfg_name(c))
 
     # reachable values of the hidden state: closure of the initial state under every call of the domain
-    reach = {LL.state_init: None}          # state -> (previous state, (cfg, tn)) on a shortest call sequence
-    order = [LL.state_init]
+    reach = {s: None for s in LL.state_inits}   # state -> (previous state, (cfg, tn)) on a shortest call sequence
+    order = list(LL.state_inits)
     results = {}                           # (state, cfg, tn) -> value | EvalOOB
     if LL.state:
         dom = sorted(set(T.cfg.values()) | set(T.extra_cfg.values()) | set(cfgs))
@@ -2635,12 +2804,14 @@ def r2_lookup(L, T):
                     if h and isinstance(found, dict):
                         found["after_the_lookups"] = " then ".join("(%s, tn %d)" % (cname(c), t) for c, t in h[-3:])
                         found["state"] = LL.show_state(st)
+                    elif LL.state and isinstance(found, dict):
+                        found["state"] = LL.show_state(st)
                     elif h:
                         found = "%s after the lookups %s" % (found, " then ".join("(%s, tn %d)" % (cname(c), t) for c, t in h[-3:]))
             if ok and len(got) == 1:
                 result[(cfg, tn)] = T.layouts[got.pop()]
             L.ob("C11.R2", F_MF, fname, "lookup (%s, tn %d) returns a layout of that combination valid for the timeslot%s" % (
-                cn, tn, ", whatever lookups preceded it" if LL.state else ""), want, found, ok, tu.line(LL.f),
+                cn, tn, ", whatever lookups preceded it" if LL.n_own else ""), want, found, ok, tu.line(LL.f),
                 note="evaluated in the %d reachable states of %s" % (len(order), ", ".join(n for _, n in LL.state)) if LL.state else None)
     L.floor("C11.R2", "(combination, timeslot) pairs", npairs, 64)
     r2_whole_domain(L, T, LL, cfgs, order, results, history)
@@ -3558,6 +3729,13 @@ class FwExec:
                 if b[0] is None:
                     return XUNK
                 return (int(truth(b[0])), _dep_join(a[1], b[1]))
+            if op == "/" and kind(strip(l)) == kind(strip(r)) == "UnaryExprOrTypeTraitExpr":
+                # ARRAY_SIZE(): folded as a whole (the element size alone need not be known)
+                c = self._fold.get(id(n), _NOTHING)
+                if c is _NOTHING:
+                    c = self._fold[id(n)] = self.tu.fold(n)
+                if c is not None:
+                    return (c, 0)
             a, b = self.ev(l, fr), self.ev(r, fr)
             return self.arith(op, a, b, n)
         if k == "CompoundAssignOperator" and len(ks) == 2:
@@ -3965,7 +4143,7 @@ def chan_nr_reference(C, cbits, tn):
     return hit
 
 
-def r5_chan_nr_tasks(L, FW, M, C):
+def r5_chan_nr_tasks(L, FW, M, C, tu):
     """C11.R5, first clause (`the frames in which the firmware starts a block of a logical channel are
     the frames trxcon's layout gives to that channel`), link channel -> task: the firmware runs, for a
     dedicated channel requested by its RSL channel number, the multiframe tasks whose bits
@@ -3977,7 +4155,6 @@ def r5_chan_nr_tasks(L, FW, M, C):
     spec/mframe_map.json maps to a trxcon logical channel, the selected set must equal the reference
     spec/chan_nr_tasks.json (channel numbers the reference leaves open are not constrained)."""
     fname = C.get("function", "chan_nr2mf_task_mask")
-    tu = TU(L.repo, "fw", "layer1/l23_api.c", L=L)
     f = tu.func(fname)
     L.fn(F_L23, fname)
     ps = tu.fparams(f)
@@ -4058,6 +4235,369 @@ def r5_chan_nr_tasks(L, FW, M, C):
     L.floor("C11.R5", "(channel number, neighbour mode) pairs compared with the reference", nchk, 152)
     L.extra["chan_nr_tasks"] = {"compared": nchk, "left_open_by_the_reference": nopen, "neighbour_modes": sorted(modes)}
     return table
+
+
+# ====================================================== R6: CCCH mode -> task set
+
+M64 = (1 << 64) - 1
+REQ_PATH = "<L1CTL request>"
+
+
+def is_tern(v):
+    return isinstance(v, tuple) and len(v) == 4 and v[0] == "tern"
+
+
+def t_of(v):
+    """("tern", zeros, ones, initial): a 64 bit vector each bit of which is known 0, known 1, the bit the
+    task word had at the same position before the function ran, or (in none of the masks) unknown"""
+    if isinstance(v, int) and not isinstance(v, bool):
+        u = v & M64
+        return ("tern", ~u & M64, u, 0)
+    return v if is_tern(v) else None
+
+
+def t_op(op, x, y):
+    _, x0, x1, xi = x
+    _, y0, y1, yi = y
+    if op == "|":
+        r1, r0 = x1 | y1, x0 & y0
+        ri = ((xi & (y0 | yi)) | (yi & (x0 | xi))) & ~r1
+    elif op == "&":
+        r0, r1 = x0 | y0, x1 & y1
+        ri = ((xi & (y1 | yi)) | (yi & (x1 | xi))) & ~r0
+    else:
+        k = (x0 | x1) & (y0 | y1)
+        r1 = (x1 ^ y1) & k
+        r0 = ~(x1 ^ y1) & k
+        ri = (xi & y0) | (yi & x0)
+    return ("tern", r0 & M64, r1 & M64, ri & M64)
+
+
+def t_fit(tu, v, ty):
+    """v (int or bit vector) converted to the C integer type ty; None when the model cannot tell"""
+    if isinstance(v, int):
+        return cwrap(tu, v, ty)
+    bt = int_type(tu, ty)
+    if bt is None or not is_tern(v):
+        return None
+    bits, signed = bt
+    _, z, o, i = v
+    if bits == 1:
+        return 1 if o else (0 if z == M64 else None)
+    mask = (1 << bits) - 1
+    if signed and not z >> (bits - 1) & 1:
+        return cwrap(tu, o & mask, ty) if (z | o) & mask == mask else None
+    r = ("tern", (z & mask) | (M64 & ~mask), o & mask, i & mask)
+    return r[2] if (r[1] | r[2]) == M64 else r
+
+
+class TaskSetExec(FwExec):
+    """Exact execution of a firmware function that changes the set of enabled multiframe tasks
+    (l1s.mframe_sched.tasks_tgt through mframe_enable / mframe_disable / mframe_set / helpers), for ONE value of
+    the request field that selects the set.  FwExec extended by (a) a store: values written to objects
+    of the global memory are kept by access path and read back, in all translation units that take part
+    (S["execs"]: a callee without a body here is entered in the unit that defines it); (b) the task
+    word as a bit vector over {0, 1, initial bit, unknown}: the function is executed once for EVERY
+    content of the word before the request, only `|`, `&`, `^`, `~` and integer conversions keep
+    knowledge, a condition that depends on an unknown / initial bit gives no verdict; (c) the request
+    field: the member S["input"] of the message payload (unmodelled memory) holds the value under test.
+    A condition the model cannot decide may not guard stores to global memory or calls it would enter."""
+
+    def __init__(self, FW, entry, S):
+        FwExec.__init__(self, FW, entry)   # FW: Firmware (mframe_sched.c with its tables) or _TUOnly
+        self.S = S
+        S["execs"].append(self)
+
+    @staticmethod
+    def outside(e, fr):
+        i = Locals._ref(e)
+        return i is None or i not in fr["ids"]
+
+    def store(self, tgt, val):
+        v = tgt[0]
+        if isinstance(v, tuple) and v[0] == "mem":
+            mem, p = self.S["mem"], v[1]
+            for k in [k for k in mem if k.startswith(p + ".") or p.startswith(k + ".")]:
+                del mem[k]
+            mem[p] = val if val[0] is not None and val[1] == 0 else XUNK
+        # else: a store through a pointer the model does not know; assumed not to alias the modelled objects
+
+    def rvalue(self, val, n):
+        v = val[0]
+        if isinstance(v, tuple) and v[0] == "mem" and v[1] in self.S["mem"]:
+            return self.S["mem"][v[1]]
+        return FwExec.rvalue(self, val, n)
+
+    def ev(self, n, fr):
+        k = n.get("kind")
+        ks = [c for c in n.get("inner", ()) if c]
+        if k == "BinaryOperator" and len(ks) == 2 and n.get("opcode") == "=" and self.outside(ks[0], fr):
+            val = self.ev(ks[1], fr)
+            self.store(self.ev(ks[0], fr), val)
+            return val
+        if k == "CompoundAssignOperator" and len(ks) == 2 and self.outside(ks[0], fr):
+            tgt = self.ev(ks[0], fr)
+            old, b = self.rvalue(tgt, ks[0]), self.ev(ks[1], fr)
+            crt = n.get("computeResultType") or n.get("type")
+            oc = t_fit(self.tu, old[0], crt) if old[0] is not None else None
+            new = self.arith(n.get("opcode")[:-1], (oc, old[1]), b, {"type": crt}) if oc is not None else XUNK
+            x = t_fit(self.tu, new[0], n.get("type")) if new[0] is not None else None
+            new = (x, new[1]) if x is not None else XUNK
+            self.store(tgt, new)
+            return new
+        if k == "UnaryOperator" and ks and n.get("opcode") in ("++", "--") and self.outside(ks[0], fr):
+            self.store(self.ev(ks[0], fr), XUNK)
+            return XUNK
+        if k == "UnaryOperator" and ks and n.get("opcode") in ("~", "!"):
+            a = self.ev(ks[0], fr)
+            v, op = a[0], n.get("opcode")
+            if v is None:
+                return XUNK
+            d = a[1] if isinstance(a[1], int) else "R"
+            if is_tern(v):
+                if op == "~":
+                    x = t_fit(self.tu, ("tern", v[2], v[1], 0), n.get("type"))
+                    return (x, d) if x is not None else XUNK
+                return (0, d) if v[2] else XUNK
+            if isinstance(v, tuple):
+                return (0, d) if op == "!" else XUNK
+            return (self.wrap(n, ~v), d) if op == "~" else (int(not v), d)
+        if k in ("ImplicitCastExpr", "CStyleCastExpr") and ks:
+            r = FwExec.ev(self, n, fr)
+            if is_tern(r[0]):
+                ck = n.get("castKind")
+                if ck in ("LValueToRValue", "NoOp"):
+                    return r
+                if ck == "IntegralCast":
+                    x = t_fit(self.tu, r[0], n.get("type"))
+                    return (x, r[1]) if x is not None else XUNK
+                if ck == "IntegralToBoolean" and r[0][2]:
+                    return (1, r[1])
+                return XUNK
+            return r
+        if k == "MemberExpr" and ks:
+            r = FwExec.ev(self, n, fr)
+            inp = self.S.get("input")
+            if r[0] is None and inp and n.get("name") == inp[1] and \
+                    re.search(r"\bstruct %s\b" % re.escape(inp[0]), ks[0].get("type", {}).get("qualType", "")):
+                self.S["input_reads"] += 1
+                return (("mem", "%s.%s" % (REQ_PATH, inp[1])), 0)
+            return r
+        return FwExec.ev(self, n, fr)
+
+    def arith(self, op, a, b, n):
+        if is_tern(a[0]) or is_tern(b[0]):
+            x, y = t_of(a[0]), t_of(b[0])
+            if x is None or y is None or a[1] != 0 or b[1] != 0 or op not in ("&", "|", "^"):
+                return XUNK
+            r = t_fit(self.tu, t_op(op, x, y), n.get("type"))
+            return (r, 0) if r is not None else XUNK
+        return FwExec.arith(self, op, a, b, n)
+
+    def stateless(self, name, depth=0):
+        """the function (body visible in one of the units) and everything visible it calls mention no
+        object with static storage and make no indirect call: with arguments that do not point into the
+        modelled memory it cannot read or change that memory, so it need not be entered"""
+        memo = self.S.setdefault("stateless", {})
+        if name in memo:
+            return memo[name]
+        memo[name] = True           # (a recursion is decided by its other members)
+        X = next((p for p in self.S["execs"] if p.visible(name)), None)
+        ok = True
+        if X is not None and depth > 8:
+            ok = False
+        elif X is not None:
+            f = X.tu.func(name)
+            own = {p["id"] for p in X.tu.fparams(f)}
+            for x in walk(X.tu.body(f)):
+                if kind(x) == "VarDecl" and x.get("storageClass") != "static":
+                    own.add(x.get("id"))
+            for x in walk(X.tu.body(f)):
+                kx = kind(x)
+                if kx == "DeclRefExpr":
+                    rd = x.get("referencedDecl", {})
+                    if rd.get("kind") in ("VarDecl", "ParmVarDecl") and rd.get("id") not in own:
+                        ok = False
+                elif kx == "CallExpr":
+                    c = strip(kids(x)[0])
+                    rd = c.get("referencedDecl", {}) if kind(c) == "DeclRefExpr" else {}
+                    if rd.get("kind") != "FunctionDecl":
+                        ok = False
+                    elif not self.stateless(rd.get("name"), depth + 1):
+                        ok = False
+                if not ok:
+                    break
+        memo[name] = ok
+        return ok
+
+    def call(self, n, ks, fr):
+        callee = strip(ks[0])
+        rd = callee.get("referencedDecl", {}) if kind(callee) == "DeclRefExpr" else {}
+        name = rd.get("name") if rd.get("kind") == "FunctionDecl" else None
+        X = next((p for p in [self] + self.S["execs"] if name is not None and p.visible(name)), None)
+        if name == SET_CALL or name is None:
+            return FwExec.call(self, n, ks, fr)
+        args = [self.ev(a, fr) for a in ks[1:]]
+        if X is None:
+            # a function without a body anywhere: value unknown; what it is handed a pointer to, too
+            for a in args:
+                if isinstance(a[0], tuple) and a[0][0] in ("ptr", "mem"):
+                    mem, p = self.S["mem"], a[0][1]
+                    for k in [k for k in mem if k == p or k.startswith(p + ".") or p.startswith(k + ".")]:
+                        del mem[k]
+            return XUNK
+        # a callee that cannot touch the modelled memory is executed for its value only: whatever stops
+        # the model inside it leaves just that value unknown
+        harmless = self.stateless(name) and not any(isinstance(a[0], tuple) and a[0][0] in ("ptr", "mem") for a in args)
+        if fr["depth"] >= 4:
+            if harmless:
+                return XUNK
+            raise AnalysisError("%s(): calls nested too deeply at %s()" % (self.entry, name))
+        X.steps = self.steps
+        try:
+            r = X.run(name, args, fr["depth"] + 1)
+        except AnalysisError:
+            if not harmless:
+                raise
+            r, X.steps = XUNK, self.steps
+        self.steps = X.steps
+        return r
+
+    def havoc_info(self, fname, g, node, cache):
+        key = ("tse", node.id)
+        r = cache.get(key)
+        if r is not None:
+            return r
+        assigned, danger, cont = FwExec.havoc_info(self, fname, g, node, cache)
+        if danger is None:
+            ids = cache.get("ids") or set()
+            seen, todo = {}, [s for s, _ in node.succ]
+            while todo:
+                x = todo.pop()
+                if x.id in seen or x is cont:
+                    continue
+                seen[x.id] = x
+                todo.extend(s for s, _ in x.succ)
+            for x in seen.values():
+                host = x.cond if x.kind in ("cond", "switch") else x.ast
+                if host is None or not kind(host) or kind(host) == "DoHead":
+                    continue
+                for y in walk(host):
+                    ky = kind(y)
+                    if (ky == "BinaryOperator" and y.get("opcode") == "=") or ky == "CompoundAssignOperator" or \
+                            (ky == "UnaryOperator" and y.get("opcode") in ("++", "--")):
+                        t = strip(kids(y)[0])
+                        i = Locals._ref(t)
+                        base, direct = t, True
+                        while kind(base) in ("MemberExpr", "ArraySubscriptExpr", "ImplicitCastExpr", "ParenExpr") and kids(base):
+                            if base.get("isArrow") or base.get("castKind") == "LValueToRValue":
+                                direct = False      # through a pointer: may point into the modelled memory
+                            base = kids(base)[0]
+                        bi = Locals._ref(base)
+                        if (i is None or i not in ids) and not (direct and bi is not None and bi in ids):
+                            danger = danger or "code storing to `%s`" % ctext(t)[:40]
+        r = cache[key] = (assigned, danger, cont)
+        return r
+
+
+def r6_ccch_mode_tasks(L, FW, M, C, tu):
+    """C11.R6, first clause (`the frames in which the firmware starts a block of a logical channel are
+    exactly the frames trxcon's layout marks for that channel`), link CCCH mode -> task set: for CCCH
+    plain / combined / combined with CBCH the firmware runs the multiframe tasks that
+    l1ctl_rx_ccch_mode_req() leaves enabled, trxcon runs the layout of the combination that belongs to
+    the same mode (spec/ccch_mode_tasks.json); R3/R4 compare the frames of task X with the layouts
+    spec/mframe_map.json maps X to.  So the property only holds if, for every mode, the request leaves
+    enabled the task(s) of the mode's channels that are mapped to the mode's combination, leaves
+    disabled the tasks of the same channels mapped to other combinations only, and enables no other
+    mapped task that does not belong to the combination.  The function (and the mframe_sched.c
+    functions it calls) is executed by the checker's interpreter for each mode, for every content of the
+    task word before the request at once (bit vector over 0 / 1 / unchanged / unknown)."""
+    fname = C.get("function", "l1ctl_rx_ccch_mode_req")
+    req = C.get("request", {})
+    if not req.get("struct") or not req.get("member") or not C.get("modes"):
+        raise AnalysisError("spec/ccch_mode_tasks.json: request / modes missing")
+    f = tu.func(fname)
+    L.fn(F_L23, fname)
+    if len(tu.fparams(f)) != 1:
+        raise AnalysisError("%s() signature changed (%d parameters)" % (fname, len(tu.fparams(f))))
+    tasks = {k: v for k, v in tu.enums.items() if tu.enum_of.get(k) == "mframe_task"}
+    if tasks != FW.tasks:
+        raise AnalysisError("enum mframe_task differs between layer1/l23_api.c and layer1/mframe_sched.c")
+    mapped = {k: v for k, v in M.get("tasks", {}).items() if not k.startswith("_")}
+    for t in mapped:
+        if t not in tasks or not 0 <= tasks[t] < 32:
+            raise AnalysisError("spec/mframe_map.json names %s, which is not one of the 32 bits of the task word" % t)
+    ncalls = sum(len(calls_to(tu.body(of), fname)) for _, of in body_funcs(tu))
+    L.floor("C11.R6", "call sites of %s" % fname, ncalls, 1)
+    # the word that holds the task set: what the `replace the set` primitive of mframe_sched.c writes
+    S = {"mem": {}, "execs": [], "input": None, "input_reads": 0}
+    X23, Xmf = TaskSetExec(_TUOnly(tu), fname, S), TaskSetExec(FW, fname, S)
+    api = C.get("task_set_api", "mframe_set")
+    probe = 0x5AC35A3C
+    if not Xmf.visible(api) or len(FW.tu.fparams(FW.tu.func(api))) != 1:
+        raise AnalysisError("%s(tasks) of layer1/mframe_sched.c vanished; cannot identify the task word" % api)
+    Xmf.run(api, [(probe, 0)])
+    words = sorted(p for p, v in S["mem"].items() if v == (probe, 0))
+    if len(words) != 1:
+        raise AnalysisError("%s() stores the task set to %s; cannot identify the task word" % (api, words or "nothing"))
+    word = words[0]
+    S["input"] = (req["struct"], req["member"])
+    nmodes = 0
+    for mname, ms in sorted(C["modes"].items()):
+        if mname.startswith("_"):
+            continue
+        mval = tu.enums.get(mname)
+        if mval is None:
+            raise AnalysisError("spec/ccch_mode_tasks.json names %s, which is not an enumerator any more" % mname)
+        cfg = ms["config"]
+        if not any(tg.get("config") == cfg for sp in mapped.values() for tg in sp.get("targets", [])):
+            raise AnalysisError("spec/ccch_mode_tasks.json: no task of spec/mframe_map.json is mapped to %s" % cfg)
+        belongs = {t: any(tg.get("config") == cfg for tg in sp.get("targets", [])) for t, sp in mapped.items()}
+        need = {}       # task -> (required state, channel)
+        for ch in ms["channels"]:
+            owners = [t for t, sp in mapped.items() if ch in (sp.get("plain"), sp.get("sacch"))]
+            if not any(belongs[t] for t in owners):
+                raise AnalysisError("spec/ccch_mode_tasks.json: no task maps %s in %s" % (ch, cfg))
+            for t in owners:
+                need[t] = ("enabled" if belongs[t] else "disabled", ch)
+        S["mem"].clear()
+        S["mem"][word] = (("tern", M64 & ~0xffffffff, 0, 0xffffffff), 0)
+        S["mem"]["%s.%s" % (REQ_PATH, req["member"])] = (mval, 0)
+        S["input_reads"] = 0
+        X23.steps = Xmf.steps = 0
+        X23.calls = []
+        X23.run(fname, [XUNK])
+        if X23.calls or Xmf.calls:
+            raise AnalysisError("%s() queues item sets; outside the model" % fname)
+        if not S["input_reads"]:
+            raise AnalysisError("%s(): the execution never reads `%s` of struct %s; cannot tell which mode it acts on" % (
+                fname, req["member"], req["struct"]))
+        res = t_of(S["mem"].get(word, XUNK)[0])
+
+        def state(t):
+            if res is None:
+                return "unknown"
+            b = tasks[t]
+            return "enabled" if res[2] >> b & 1 else "disabled" if res[1] >> b & 1 else \
+                "left as it was before the request" if res[3] >> b & 1 else "unknown"
+        unk = sorted(t for t in mapped if state(t) == "unknown")
+        if unk:
+            raise AnalysisError("%s(), mode %s: the execution model cannot tell what happens to the task bit(s) of %s" % (
+                fname, mname, ", ".join(unk[:4])))
+        nmodes += 1
+        short = short_cfg(cfg)
+        for t, (want, ch) in sorted(need.items(), key=lambda kv: tasks[kv[0]]):
+            L.ob("C11.R6", F_L23, fname,
+                 "L1CTL_CCCH_MODE_REQ(%s), trxcon combination %s: %s, which starts the %s blocks of %s, is %s after the request" % (
+                     mname, short, t, ch.replace("L1SCHED_", ""),
+                     "this combination" if want == "enabled" else "other combinations only", want),
+                 want, state(t), state(t) == want, tu.line(f))
+        stray = sorted(t for t in mapped if t not in need and state(t) == "enabled" and not belongs[t])
+        L.ob("C11.R6", F_L23, fname,
+             "L1CTL_CCCH_MODE_REQ(%s), trxcon combination %s: no further task is enabled whose frames were compared "
+             "with other combinations only" % (mname, short), [], stray, not stray, tu.line(f))
+    L.floor("C11.R6", "CCCH modes executed", nmodes, 3)
+    L.extra["ccch_mode_tasks"] = {"modes": nmodes, "task_word": word}
 
 
 # ====================================================== R4: cross-agreement
@@ -4533,8 +5073,16 @@ def s_cross(L, T, FW, r2, M, S):
     r4_spec(L, T, lookup, M, S, complete)
 
 
-def s_chan_nr(L, FW, M):
-    r5_chan_nr_tasks(L, FW, M, load_spec("chan_nr_tasks.json"))
+def s_l23_tu(L):
+    return TU(L.repo, "fw", "layer1/l23_api.c", L=L)
+
+
+def s_chan_nr(L, FW, M, tu_l23):
+    r5_chan_nr_tasks(L, FW, M, load_spec("chan_nr_tasks.json"), tu_l23)
+
+
+def s_ccch_mode(L, FW, M, tu_l23):
+    r6_ccch_mode_tasks(L, FW, M, load_spec("ccch_mode_tasks.json"), tu_l23)
 
 
 def s_thorough_tus(L, T, tu_trx):
@@ -4574,7 +5122,9 @@ def run(L, tier):
     L.stage(r3_fw_tables, L, FW)
     L.stage(r3_trigger, L, FW, latency)
     L.stage(s_cross, L, T, FW, r2, M, S)
-    L.stage(s_chan_nr, L, FW, M)
+    tu_l23 = L.stage(s_l23_tu, L)
+    L.stage(s_chan_nr, L, FW, M, tu_l23)
+    L.stage(s_ccch_mode, L, FW, M, tu_l23)
     if T and FW:
         L.extra["tables"] = {
             "trxcon_layouts": len(T.layouts),
